@@ -116,6 +116,8 @@ pub struct Stats {
 	pub pm_steps_checked: u64,
 	pub rejected_commits: u64,
 	pub levels: Vec<(usize, usize)>,
+	/// a few of the histories actually executed (the deepest representative of some levels)
+	pub samples: Vec<String>,
 	pub known_hits: std::collections::BTreeMap<String, u64>,
 	pub crash: crate::crashmc::CrashStats,
 	pub faults: crate::faultmc::FaultStats,
@@ -589,6 +591,13 @@ pub fn graph_search(scn: &Scenario, budget: &Budget) -> (Stats, Option<Found>) {
 		depth += 1;
 		if !next_frontier.is_empty() {
 			stats.max_depth = depth;
+			if stats.samples.len() < 12 {
+				let n = &next_frontier[next_frontier.len() / 2];
+				let mut h = scn.init.clone();
+				h.extend(n.hist.iter().cloned());
+				let s = hist_short(&h);
+				stats.samples.push(if s.len() > 600 { format!("{}...", &s[..600]) } else { s });
+			}
 		}
 		frontier = next_frontier;
 	}
